@@ -665,6 +665,33 @@ def feature_modules(thorough=False):
     u_ = fb.emit(ir.Binop(z_, "&", b, "i32", ir.i32))
     fb.ret(fb.emit(ir.Binop(u_, "+", u_, "return", ir.i32)))
     done("names:keyword-like", fb, [("f", ["i32", "i32"])])
+    fb = FB("names2")       # names of the words the formats use for operators / newer constructs
+    fn, (a, b) = fb.function("f", "i32", ["i32", "i32"])
+    a.name, b.name = "rol", "ror"
+    blk_rol = fb.new_block("x")
+    blk_rol.name = "rol"
+    other = fb.new_block("other")
+    fb.emit(ir.CJump(a, "<", b, blk_rol, other))
+    fb.at(blk_rol)
+    v = fb.emit(ir.Binop(a, "rol", fb.binop(b, "&", fb.const(7, "i32"), "i32"), "inf", ir.i32))
+    fb.emit(ir.Jump(other))
+    fb.at(other)
+    ph = fb.emit(ir.Phi("phi", ir.i32))
+    ph.set_incoming(blk_rol, v)
+    ph.set_incoming(fn.entry, a)
+    w = fb.emit(ir.Binop(ph, "ror", fb.binop(a, "&", fb.const(3, "i32"), "i32"), "nan", ir.i32))
+    x_ = fb.emit(ir.Binop(w, "+", ph, "undefined", ir.i32))
+    y_ = fb.emit(ir.Binop(x_, "-", w, "volatile", ir.i32))
+    fb.ret(fb.emit(ir.Binop(y_, "^", x_, "memcpy", ir.i32)))
+    done("names:operator-words", fb, [("f", ["i32", "i32"])])
+    fb = FB("names3")       # leading underscores: the C front-end calls string literals __txt_const_<n>
+    g = ir.Variable("__txt_const_0", ir.Binding.LOCAL, 3, 1, value=b"hi\x00")
+    fb.m.add_variable(g)
+    fn, (a,) = fb.function("_start", "u8", ["u8"])
+    a.name = "_a"
+    ld = fb.emit(ir.Load(g, "_tmp", ir.u8))
+    fb.ret(fb.emit(ir.Binop(ld, "+", a, "__r", ir.u8)))
+    done("names:leading-underscore", fb, [("_start", ["u8"])])
     return out
 
 
@@ -694,6 +721,11 @@ void tick(void) { port = port + 1; acc += 3; }
 int f(int n) { int i; int s = 0; for (i = 0; i < (n & 7); i++) { tick(); s += table[i & 3] >> 3; }
   if (big < 0) s = -s; if (ubig > 5) s ^= 0x55; return s + acc + port; }
 """, "f", ["i32"]),
+    ("c:keyword-like-names", r"""
+int memcpy(int inf, int nan, int undefined, int rol, int ror, int volatile_, int phi, int load, int store)
+{ return (inf - nan) * undefined + (rol | ror) - volatile_ + phi * load - store; }
+int f(int a, int b) { return memcpy(a, b, 3, a, b, 5, a, b, 7) + -a; }
+""", "f", ["i32", "i32"]),
 ]
 
 
@@ -718,7 +750,11 @@ def corpus(ctx, n_irgen, n_c):
 
     rng = ctx.rng
     items = []
-    for key, m, runs in feature_modules(ctx.tier == "thorough"):
+    for k, (key, m, runs) in enumerate(feature_modules(ctx.tier == "thorough")):
+        if ctx.tier != "thorough" and len(runs) > 3:
+            # quick tier: execute three of the per-type functions (rotating, so all types occur over the operators);
+            # structure and text of all of them are always compared
+            runs = [runs[(k + j * 3) % len(runs)] for j in range(3)]
         items.append(Item("feature:" + key, m, runs, src="harness/irrt.py feature_modules(): " + key))
     for key, src, fn, ptys in C_SOURCES:
         for lvl in (None, "2"):
@@ -960,7 +996,7 @@ def describe(clause, diag, rec, tags, bad_tags):
         out = rec["outcome"]
         culprit = next((t for t in tags if bad_tags.get(t) == out), None)
         if culprit is None:
-            culprit = next((t for t in tags if t not in BASELINE_TAGS), "baseline") if rec["id"].startswith("feature:") else "unattributed"
+            culprit = "construct" if rec["id"].startswith("feature:") else "unattributed"
         return {"tag": "%s:%s" % (out.replace("error:", ""), culprit),
                 "what": "outcome %s (module contains %s); the specification has no action for a failing writer/reader" % (
                     out, culprit)}
@@ -986,14 +1022,21 @@ def describe(clause, diag, rec, tags, bad_tags):
         return {"tag": tag, "what": "volatility of instruction %d of block %d of %s: %s became %s" % (
             k, bl, fname(), ins_at(a, "vol"), ins_at(b, "vol") if b else None)}
     if clause == "SameNames":
-        return {"tag": "names", "what": "names differ in %s (block %d, position %d): %s became %s" % (
-            fname(), bl, k, ins_at(a, "vnames"), ins_at(b, "vnames") if b else None)}
+        def nm(p):
+            try:
+                fn_ = p["funcs"][f - 1]
+                seq = fn_["pnames"] if bl == 1 else fn_["bnames"] if bl == 2 else fn_["vnames"][bl - 3]
+                return seq[k - 1]
+            except (IndexError, KeyError, TypeError):
+                return None
+        plane = "parameter" if bl == 1 else "block" if bl == 2 else "value (block %d)" % (bl - 2)
+        return {"tag": "names", "what": "%s name %d of %s: %r became %r" % (plane, k, fname(), nm(a), nm(b) if b else None)}
     if clause == "SameInitialValues":
         va = a["inits"][f - 1] if 1 <= f <= len(a["inits"]) else None
         vb = b["inits"][f - 1] if b and 1 <= f <= len(b["inits"]) else None
         name = a["variables"][f - 1]["name"] if 1 <= f <= len(a["variables"]) else "?"
         kinds = sorted({p["k"].split(":")[0] for p in (va or {}).get("parts", [])}) or ["none"]
-        return {"tag": "init:" + "+".join(kinds), "what": "initial value of variable %s: %s became %s" % (name, _short(va), _short(vb))}
+        return {"tag": "init." + "+".join(kinds), "what": "initial value of variable %s: %s became %s" % (name, _short(va), _short(vb))}
     if clause == "SameText":
         ln = f
         ta, tb = rec.get("ta") or [], rec.get("tb") or []
@@ -1041,7 +1084,7 @@ def _short(x):
     return s if len(s) < 160 else s[:157] + "..."
 
 
-def behaviour_cases(ctx, recs, nvec):
+def behaviour_cases(ctx, recs, nvec, diffs=None):
     from engines.c02 import TY_BYTES, int_vectors
 
     cases = []
@@ -1053,8 +1096,11 @@ def behaviour_cases(ctx, recs, nvec):
         for fn, ptys in it.runs:
             if any(t not in TY_BYTES for t in ptys):
                 continue
+            # a module already reported as structurally different gets one vector: a behavioural difference
+            # there is a consequence, one demonstration is enough (and TLC prints a full trace per violation)
+            nv = 1 if (diffs or {}).get(ri) else nvec
             vecs = (it.vecs or {}).get(fn) or int_vectors(ptys, prng, nvec)
-            vecs = [v for v in vecs if len(v) == len(ptys)][:nvec] or ([[]] if not ptys else [])
+            vecs = [v for v in vecs if len(v) == len(ptys)][:nv] or ([[]] if not ptys else [])
             if not vecs:
                 continue
             argv = [[project_ir.limbs(v, TY_BYTES[t]) for v, t in zip(vec, ptys)] for vec in vecs]
@@ -1090,7 +1136,7 @@ def judge_behaviour(ctx, prop, fmt, cases, diffs):
             raise MachineryError("unexpected TLC error in IR run: %s\n%s" % (e, e.text[:1500]))
         c = cases[i - 1]
         d = "+".join(sorted(diffs.get(c["ri"], ()))) or "none"
-        key = "%s:Behaviour:after=%s:%s" % (prop, d, c["id"])
+        key = "%s:Behaviour:after=(%s):%s" % (prop, d, c["id"])
         if key in seen:
             continue
         seen.add(key)
@@ -1121,10 +1167,10 @@ def run(ctx, prop, fmt):
         res = ctx.tlc("IRRoundTrip_MC", MC_CFG, label="clause decomposition laws", workers=4)
         for e in res.errors:
             raise MachineryError("IRRoundTrip law fails in the specification itself: %s\n%s" % (e, e.text[:1500]))
-    items = corpus(ctx, 120 if thorough else 30, 40 if thorough else 6)
+    items = corpus(ctx, 250 if thorough else 24, 60 if thorough else 5)
     if ctx.only is not None:
         want = (ctx.only.get("case") or {}).get("id", "")
-        items = [it for it in items if it.key == want or want.startswith(it.key + ":")]
+        items = [it for it in items if it.key.startswith("feature:") or it.key == want or want.startswith(it.key + ":")]
     recs = records_for(ctx, fmt, items)
     for r in recs:
         ctx.count(r["rec"]["id"])
@@ -1133,6 +1179,6 @@ def run(ctx, prop, fmt):
     ctx.cov["modules"] = len(recs)
     ctx.cov["modules_read_back"] = sum(1 for r in recs if r["b2"] is not None)
     diffs = judge_structure(ctx, prop, fmt, recs)
-    cases = behaviour_cases(ctx, recs, 6 if thorough else 3)
+    cases = behaviour_cases(ctx, recs, 6 if thorough else 3, diffs)
     ctx.cov["behaviour_cases"] = len(cases)
     judge_behaviour(ctx, prop, fmt, cases, diffs)
